@@ -69,13 +69,13 @@ theorem tryWrite_sound (name : β → Str) (d : List (DQuad β)) (ch : Choices) 
   · cases h
 
 /-- Every document `write` produces denotes a dataset isomorphic to the one it was written from. -/
-theorem write_denotes (name : β → Str) (hname : Function.Injective name) (d : List (DQuad β)) (hwf : WFDataset d)
-    (ch : Choices) :
+theorem write_denotes (name : β → Str) (hname : Function.Injective name) (hne : ∀ b, name b ≠ [])
+    (d : List (DQuad β)) (hwf : WFDataset d) (ch : Choices) :
     ∃ out, toRdf ch.mode11 ch.base (write name d ch) = some out ∧ Spec.IsoQ out d := by
   unfold write
   cases ht : tryWrite name d ch with
   | none =>
-    exact ⟨_, writeFlat_denotes name ch.mode11 ch.base d hwf, outQuad_iso name hname d⟩
+    exact ⟨_, writeFlat_denotes name hne ch.mode11 ch.base d hwf, outQuad_iso name hname d⟩
   | some r =>
     obtain ⟨doc, F⟩ := r
     obtain ⟨hok, n0, hd⟩ := tryWrite_sound name d ch doc F ht
